@@ -107,7 +107,14 @@ fn reference(v: V) -> Option<Value> {
 	serde_json::to_value(v).ok()
 }
 
-const KEYS: [[&str; 4]; 3] = [["a", "b", "a", "k\"q"], ["a", "a", "a", "a"], ["k\"q", "", "b", "b"]];
+const KEYS: [[&str; 4]; 5] = [
+	["a", "b", "a", "k\"q"],
+	["a", "a", "a", "a"],
+	["k\"q", "", "b", "b"],
+	// names that need (or look like) JSON escapes: a backslash, a backslash that would form an escape, a control character
+	["a\\b", "x\\u0041", "dir\\name", "t\tab"],
+	["é", "\u{1F600}", "\\", "\u{7f}"],
+];
 
 fn judge_array(rep: &Reporter, hist: &[V], results: &[bool], out: Result<Result<Option<String>, String>, ()>) -> &'static str {
 	let desc = format!("{hist:?}");
@@ -306,7 +313,7 @@ fn wide_values(rep: &Reporter, local: &mut Local) {
 pub fn check(rep: &Reporter) {
 	let maxlen = if rep.tier.thorough() { 6 } else { 5 };
 	rep.set_rule(&format!(
-		"all insert sequences of length 0..{maxlen} over {} value kinds (scalars, strings needing escapes, Unicode, nested containers, unit struct, and five Serialize impls that fail before writing / inside a sequence / inside a map value / on a non-string key / inside a struct field) into ArrayParams and into ObjectParams under 3 key schemes (incl. duplicate and escaped keys); every history is distinct by construction; rpc_params! with 0..4 arguments over the non-failing kinds, tuples of arity 1..16, slices / arrays / Vec of length 0..3, serde_json::Map, BatchRequestBuilder with 0..3 entries incl. entries whose params fail to serialise; pairs of 128-bit integers, f32/f64 edge values and raw JSON values (30-digit number, -0.0, 1E2, duplicate keys, escapes) through every container kind, judged by a typed parse-back. Oracle: serde_json::to_value of each inserted value and a pair-preserving parse of the emitted text.",
+		"all insert sequences of length 0..{maxlen} over {} value kinds (scalars, strings needing escapes, Unicode, nested containers, unit struct, and five Serialize impls that fail before writing / inside a sequence / inside a map value / on a non-string key / inside a struct field) into ArrayParams and into ObjectParams under 5 key schemes (incl. duplicate keys, keys with quotes, backslashes, control and non-ASCII characters); every history is distinct by construction; rpc_params! with 0..4 arguments over the non-failing kinds, tuples of arity 1..16, slices / arrays / Vec of length 0..3, serde_json::Map, BatchRequestBuilder with 0..3 entries incl. entries whose params fail to serialise; pairs of 128-bit integers, f32/f64 edge values and raw JSON values (30-digit number, -0.0, 1E2, duplicate keys, escapes) through every container kind, judged by a typed parse-back. Oracle: serde_json::to_value of each inserted value and a pair-preserving parse of the emitted text.",
 		VS.len()
 	));
 	rep.assume("serde_json::to_value of a value is the reference for what 'the inserted value' is");
